@@ -964,7 +964,7 @@ func (env *Env) pureCall(e *SExpr) (Val, bool) {
 	if key == "" {
 		return Val{}, false
 	}
-	fc := ex.L.contracts.Funcs[key]
+	fc := ex.L.contracts.lookup(key, ex.fc.PkgPath)
 	isPure := fc != nil && fc.Pure
 	if !isPure {
 		for _, d := range ex.L.contracts.Defaults {
